@@ -5,7 +5,6 @@ package router
 // Contracts for the deductive verifier under /verif (govc). This file contains
 // only comments: it adds no code with or without the build tag.
 
-
 // ---------------------------------------------------------------------------
 // Field invariants: configuration fields that are set once, never nil
 
@@ -203,7 +202,7 @@ package router
 //@ func (b *broker) syncUnsubscribe
 //@   nonblocking
 //@   on broker
-//@   props C01 C05 C18
+//@   props C01 C05 C18 C20
 //@   requires brokerInv(b) && brokerIndex(b) && brokerOwn(b)
 //@   requires subscriber != nil && !isnil(subscriber.Peer) && msg != nil
 //@   modifies map(b.subscriptions), map(b.topicSubscription), map(b.pfxTopicSubscription), map(b.wcTopicSubscription), map(b.sessionSubIDSet), all map[*wamp.Session]struct{}, all map[wamp.ID]struct{}, ghost sendcount
@@ -216,6 +215,7 @@ package router
 //@   ensures [inv-index] brokerIndex(b)
 //@   ensures [inv-own] brokerOwn(b)
 //@   ensures [removed] !isMember(b, subscriber, msg.Subscription)
+//@   ensures [history-subscription-survives] forall i wamp.ID :: old(i in b.subscriptions) && old(b.subscriptions[i] in b.eventHistoryStore) ==> i in b.subscriptions && b.subscriptions[i] == old(b.subscriptions[i])
 //@   ensures [others-untouched] forall s *wamp.Session, i wamp.ID :: s != subscriber ==> (isMember(b, s, i) <==> old(isMember(b, s, i)))
 //@   ensures [own-others-kept] forall i wamp.ID :: i != msg.Subscription ==> (isMember(b, subscriber, i) <==> old(isMember(b, subscriber, i)))
 //@   ensures [non-member-no-change] !old(isMember(b, subscriber, msg.Subscription)) ==> (forall i wamp.ID :: (i in b.subscriptions) == old(i in b.subscriptions))
@@ -227,7 +227,7 @@ package router
 //@ func (b *broker) syncRemoveSession
 //@   nonblocking
 //@   on broker
-//@   props C01 C05 C18
+//@   props C01 C05 C18 C20
 //@   requires brokerInv(b) && brokerIndex(b) && brokerOwn(b)
 //@   requires subscriber != nil
 //@   modifies map(b.subscriptions), map(b.topicSubscription), map(b.pfxTopicSubscription), map(b.wcTopicSubscription), map(b.sessionSubIDSet), all map[*wamp.Session]struct{}, ghost sendcount
@@ -241,9 +241,11 @@ package router
 //@   ensures [inv-own] brokerOwn(b)
 //@   ensures [gone] forall i wamp.ID :: !isMember(b, subscriber, i)
 //@   ensures [gone-index] !(subscriber in b.sessionSubIDSet)
+//@   ensures [history-subscription-survives] forall i wamp.ID :: old(i in b.subscriptions) && old(b.subscriptions[i] in b.eventHistoryStore) ==> i in b.subscriptions && b.subscriptions[i] == old(b.subscriptions[i])
 //@   ensures [others-untouched] forall s *wamp.Session, i wamp.ID :: s != subscriber ==> (isMember(b, s, i) <==> old(isMember(b, s, i)))
 //@   loop range subIDSet
 //@     invariant [nn] brokerNN(b)
+//@     invariant [history-kept] forall i wamp.ID :: old(i in b.subscriptions) && old(b.subscriptions[i] in b.eventHistoryStore) ==> i in b.subscriptions && b.subscriptions[i] == old(b.subscriptions[i])
 //@     invariant [subs] brokerSubs(b)
 //@     invariant [exact] brokerExact(b)
 //@     invariant [pfx] brokerPfx(b)
@@ -1114,7 +1116,7 @@ package router
 // Leaving: the realm goroutine drops the client entry and testaments and has
 // the dealer and broker remove the session, unless the whole realm shuts down.
 //@ closure (r *realm) onLeave 1
-//@   props C05
+//@   props C05 C02
 //@   captures sess != nil && sync != nil && r != nil && r.dealer != nil && r.broker != nil && r.clients != nil && r.testaments != nil
 //@   callcount removeSession arg1
 //@   returnsite : [session-removed-from-dealer-and-broker-unless-realm-shuts-down] !shutdown ==> calls(removeSession, sess) == old(calls(removeSession, sess)) + 2
@@ -1277,3 +1279,13 @@ package router
 //@   requires brokerInv(b) && brokerHist(b)
 //@   loop i < j
 //@     invariant [reverse-bounds] 0 <= i && j < len(filteredEvents)
+
+// Flushing testaments of one scope leaves the session's testaments of the
+// other scope stored (they are published when the session ends).
+//@ closure (r *realm) testamentFlush 1
+//@   on realm
+//@   props C05 C18
+//@   captures r != nil
+//@   returnsite : [destroyed-flush-keeps-detached] scope == "destroyed" && old(caller in r.testaments) && old(r.testaments[caller].detached) != nil ==> caller in r.testaments && r.testaments[caller].detached == old(r.testaments[caller].detached)
+//@   returnsite : [detached-flush-keeps-destroyed] scope != "destroyed" && old(caller in r.testaments) && old(r.testaments[caller].destroyed) != nil ==> caller in r.testaments && r.testaments[caller].destroyed == old(r.testaments[caller].destroyed)
+//@   returnsite : [named-scope-flushed] caller in r.testaments ==> (scope == "destroyed" ==> r.testaments[caller].destroyed == nil) && (scope != "destroyed" ==> r.testaments[caller].detached == nil)
